@@ -84,10 +84,37 @@ class Types:
             env.setdefault(p, set())
             env[p] = env[p] | self.param_types.get((fi.fq, p), set())
 
+        # `if not isinstance(x, K): ...` : inside the block (up to the first re-assignment of x)
+        # x is not a K - the one flow fact the otherwise flow-insensitive scan honours
+        narrow = {}
+        for n in ast.walk(fi.node):
+            if not isinstance(n, ast.If):
+                continue
+            t, neg = n.test, False
+            if isinstance(t, ast.UnaryOp) and isinstance(t.op, ast.Not):
+                t, neg = t.operand, True
+            if not (isinstance(t, ast.Call) and isinstance(t.func, ast.Name)
+                    and t.func.id == "isinstance" and len(t.args) == 2
+                    and isinstance(t.args[0], ast.Name)):
+                continue
+            ks = {k.id for k in (t.args[1].elts if isinstance(t.args[1], ast.Tuple)
+                                 else [t.args[1]]) if isinstance(k, ast.Name)}
+            var = t.args[0].id
+            for st_ in (n.body if neg else n.orelse):
+                stored = False
+                for x in ast.walk(st_):
+                    if isinstance(x, ast.Name) and x.id == var:
+                        if isinstance(x.ctx, ast.Load):
+                            narrow.setdefault(id(x), set()).update(ks)
+                        else:
+                            stored = True
+                if stored:
+                    break
+
         def ty(e):
             if isinstance(e, ast.Name):
                 if e.id in env:
-                    return set(env[e.id])
+                    return set(env[e.id]) - narrow.get(id(e), set())
                 r = self.repo.resolve_name(fi.module, e.id)
                 if r and r[0] == "class":
                     return {"type:" + r[1].name}
